@@ -99,12 +99,24 @@ func hashStr(s string) uint32 {
 }
 
 func (g *Gen) execBlock(b *ssa.BasicBlock, st *State) {
+	lastLine := ""
 	for _, in := range b.Instrs {
 		if p := in.Pos(); p.IsValid() {
-			g.curPos = p
+			if _, isDbg := in.(*ssa.DebugRef); !isDbg {
+				line := g.W.sourceLine(p)
+				if line != lastLine {
+					g.anchored(st, lastLine, "assert-after")
+					g.curPos = p
+					g.anchored(st, line, "assert-at")
+					lastLine = line
+				}
+				g.curPos = p
+			}
 		}
-		if st.pc == "false" {
-			// still need registers defined for later uses; keep executing symbolically
+		switch in.(type) {
+		case *ssa.Return, *ssa.Panic, *ssa.If, *ssa.Jump:
+			g.anchored(st, lastLine, "assert-after")
+			lastLine = ""
 		}
 		g.execInstr(st, in)
 		switch in.(type) {
@@ -246,9 +258,7 @@ func (g *Gen) bumpAlloc(st *State) {
 	n := g.fresh("ac", "Int")
 	g.emit("(assert (= " + n + " (+ " + st.ac + " 1)))")
 	st.ac = n
-	if g.curBlock != nil {
-		g.allocLog[g.curBlock] = true
-	}
+	g.noteAlloc()
 }
 
 func (g *Gen) execAlloc(st *State, a *ssa.Alloc) {
@@ -757,10 +767,14 @@ func (g *Gen) execReturn(st *State, r *ssa.Return) {
 	for _, v := range r.Results {
 		results = append(results, g.value(st, v))
 	}
+	if g.inlineRets != nil {
+		*g.inlineRets = append(*g.inlineRets, inlineRet{st, results})
+		return
+	}
 	if g.spec == nil {
 		return
 	}
-	ctx := &specCtx{g: g, st: st, old: g.entry, results: results, resultNames: g.resultNames()}
+	ctx := &specCtx{g: g, st: st, old: g.entry, results: results, resultNames: g.resultNames(), paramsEntry: true}
 	for _, c := range g.spec.Ensures {
 		goal := g.evalBool(ctx, c.E)
 		g.oblige(st, "ensures", c.ID, "postcondition "+c.Src, goal)
@@ -1126,4 +1140,24 @@ func (g *Gen) bvBinop(st *State, op token.Token, a, b string, xt, rt types.Type)
 	}
 	g.unsupported("bv binop " + op.String())
 	return nil
+}
+
+// anchored checks the `assert at|after "text"` clauses whose anchor occurs in the given source line.
+func (g *Gen) anchored(st *State, line, kind string) {
+	if line == "" || g.spec == nil || len(g.spec.Asserts) == 0 {
+		return
+	}
+	for anchor, cl := range g.spec.Asserts {
+		if !strings.Contains(line, anchor) {
+			continue
+		}
+		for _, c := range cl {
+			if c.Kind != kind {
+				continue
+			}
+			ctx := &specCtx{g: g, st: st, old: g.entry}
+			g.oblige(st, "assert", c.ID, "assertion "+c.Src, g.evalBool(ctx, c.E))
+			g.assertUse[c]++
+		}
+	}
 }
